@@ -91,7 +91,10 @@ fn parse_timestamp_component(dt: &chrono::DateTime<chrono::Utc>, format_str: &st
 }
 
 pub fn resolve_timestamp(pattern: &str, timestamp: u64) -> Result<String> {
-    let dt = chrono::DateTime::from_timestamp(timestamp as i64, 0)
+    // a value above i64::MAX must not wrap into a date before 1970
+    let dt = i64::try_from(timestamp)
+        .ok()
+        .and_then(|seconds| chrono::DateTime::from_timestamp(seconds, 0))
         .ok_or_else(|| ZervError::InvalidFormat("Invalid timestamp".to_string()))?;
 
     // Handle compact patterns directly without tokenization
